@@ -2,6 +2,7 @@ package model
 
 import (
 	"strings"
+	"unicode/utf8"
 )
 
 // Spelling selects one member of the notation family of C15: indentation unit of tabs or a fixed number of spaces,
@@ -179,4 +180,12 @@ func (f Forest) HeadingOK() bool {
 		}
 	}
 	return true
+}
+
+// ValidElem reports whether name is beyond doubt a single valid path element (so that name validation must accept it).
+func ValidElem(name string) bool {
+	if name == "" || name == "." || name == ".." || strings.ContainsAny(name, "/\x00\n") || len(name) > 255 {
+		return false
+	}
+	return utf8.ValidString(name)
 }
